@@ -96,7 +96,10 @@ func (w *World) decRegistrar() *ssa.Function {
 				if fa, ok := st.Addr.(*ssa.FieldAddr); ok && w.fieldNameOfAddr(fa) == "Decoder."+w.fieldName("Decoder", fi) {
 					if c, ok := st.Val.(*ssa.Call); ok {
 						if bi, ok := c.Call.Value.(*ssa.Builtin); ok && bi.Name() == "append" {
-							return fn
+							// the append may sit in a function literal of the registrar
+							// (`remember := func(entry reflect.Value) { d.refList = append(…) }`):
+							// the registrar is the declared function the readers call
+							return rootFn(fn)
 						}
 					}
 				}
